@@ -135,8 +135,8 @@ def i_dict_literal_updates(c):
         k = r.choice(["1", "5", "'a'", c.t(), "len(" + d + ")"])
         v = r.choice(["10", c.t(), f"len({d})", f"{d}.get(1, 0)"])
         lines.append(r.choice([f"{d}[{k}] = {v}", f"{d}.update({{{k}: {v}}})", f"{d}.update({{7: 8}}, x={v})" if "'" not in k else f"{d}[{k}] = {v}"]))
-        if r.random() < 0.2:
-            lines.append(f"print(len({d}))")
+        if r.random() < 0.4:  # the state between two updates is observed: the updates cannot all be merged into the literal
+            lines.append(r.choice([f"print(len({d}))", f"print(sorted({d}.items(), key=str))", f"{o} = dict({d})", f"print({d}.get(1), 5 in {d})"]))
     lines.append(f"print({d})")
     return lines
 
@@ -153,6 +153,8 @@ def i_collection_add_update(c):
                                    f"{x}.extend({{7, 3, 5, 3}})", f"{x}.extend({{{e}, 11, 9}})", f"{x}.extend({{2: 'b', 1: 'a'}})", f"{x}.extend('ba')", f"{x}.extend(frozenset([9, 8]))"]))
         else:
             lines.append(r.choice([f"{x}.add({e})", f"{x}.update([{e}, 5])", f"{x}.update({{6}})", f"{x}.discard({e})"]))
+        if r.random() < 0.35:  # the state between two updates is observed
+            lines.append(r.choice([f"print(len({x}))", f"print(sorted({x}, key=str))", f"snap{c.n} = list({x})", f"print(4 in {x})"]))
         if r.random() < 0.2:
             y = c.name("alias")
             lines.append(f"{y} = {x}")
